@@ -1,5 +1,5 @@
 From Coq Require Import Extraction ExtrOcamlBasic.
 From CV Require Import Base.Num C18.ValueModel C17.ExtLagModel.
 Extraction Language OCaml.
-Extraction "model.ml" mkNumOps nhalf mkConfig mkParams mkState mkInput init_params init_state restart_state step trace sleep awake_at mstep menergy mtrace saved_xv valid_config saved_value restart_refused load_state route_bias bias_sees
+Extraction "model.ml" mkNumOps nhalf mkConfig mkParams mkState mkInput init_params init_state restart_state step trace sleep awake_at mstep menergy mtrace saved_xv valid_config saved_xv_opt restart_state_opt saved_value restart_refused load_state route_bias bias_sees
   reported_energy.
